@@ -45,6 +45,10 @@ func runCtxCase(a args, idx int, r *h.Rand) {
 			info.UpFails[cx] = true
 		}
 		ups := []string{up}
+		if upFails && r.Chance(50) {
+			// `up` fails without any exit status: a command that cannot be rendered / parsed
+			ups = []string{tok(cx + "|up|S"), []string{"echo {{ .NoSuchVariableAnywhere }}", "if then fi ((", "echo \"unterminated"}[r.Intn(3)]}
+		}
 		if r.Chance(40) {
 			// a second up command that succeeds: a failure of the first one must not be forgotten
 			ups = append(ups, tok(cx+"|up2"))
